@@ -57,6 +57,8 @@ func c13Err(h string) error {
 		return pkgerrors.Wrap(c13Sentinel, "while handling")
 	case "transient":
 		return transientErr{c13Sentinel}
+	case "spaced":
+		return stderrors.New(" sentinel failure:\n\tfirst  cause \r\n\tsecond cause\n") // the text is the reason, white space and all
 	case "mutable":
 		return &c13MutErr{"sentinel failure"} // an error object that is reused with another text (see the warm-up in c13Run)
 	case "slice":
@@ -104,7 +106,7 @@ func c13Filter(f string) func(error) bool {
 func runC13(c *Ctx) error {
 	T := c.Trace("PoisonTrace")
 	var cases []c13Case
-	for _, h := range []string{"ok0", "ok2", "plain", "other", "fmtwrap", "pkgwrap", "transient", "plain+outs", "mutable", "slice"} {
+	for _, h := range []string{"ok0", "ok2", "plain", "other", "fmtwrap", "pkgwrap", "transient", "plain+outs", "mutable", "slice", "spaced"} {
 		for _, f := range []string{"plain", "all", "none", "is-sentinel", "not-transient", "text-transient", "text-while"} {
 			for _, p := range []bool{true, false} {
 				for _, m := range []string{"empty", "some", "poisoned"} {
